@@ -2,6 +2,7 @@
 # run every claimed check (tier $1, default quick), sequentially; summary at the end
 cd "$(dirname "$0")"
 tier=${1:-quick}
+mkdir -p build
 rc=0
 for id in $(/venv/bin/python -c "import json;print(' '.join(c['property_id'] for c in json.load(open('MANIFEST.json'))['checks']))"); do
   ./check $id $tier > build/run_$id.log 2>&1
